@@ -34,17 +34,17 @@ type line struct {
 	Sig    string `json:"sig"`
 	RefSig string `json:"ref_sig"`
 	// verify
-	Accepted  bool  `json:"accepted"`
-	LenOK     bool  `json:"len_ok"`
-	CtxOK     bool  `json:"ctx_ok"`
-	Hints     []int `json:"hints"`
-	HintOKRef bool  `json:"hint_ok_ref"`
-	K         int   `json:"k"`
-	Omega     int   `json:"omega"`
-	ZMax      int   `json:"zmax"`
-	Gamma1    int   `json:"gamma1"`
-	Beta      int   `json:"beta"`
-	CTildeOK  bool  `json:"ctilde_ok"`
+	Accepted  bool   `json:"accepted"`
+	LenOK     bool   `json:"len_ok"`
+	CtxOK     bool   `json:"ctx_ok"`
+	Hints     []int  `json:"hints"`
+	HintOKRef bool   `json:"hint_ok_ref"`
+	K         int    `json:"k"`
+	Omega     int    `json:"omega"`
+	ZMax      int    `json:"zmax"`
+	Gamma1    int    `json:"gamma1"`
+	Beta      int    `json:"beta"`
+	CTildeOK  bool   `json:"ctilde_ok"`
 	Seed      string `json:"seed"`
 	Msg       string `json:"msg"`
 	Ctx       string `json:"ctx"`
@@ -142,6 +142,40 @@ func main() {
 				continue
 			}
 			emit(l)
+			if si < 3 {
+				// the public key OBJECT a private key hands out, for a private key whose tr field is not H(pk) (any bytes are a valid
+				// encoding there): it encodes to the honest public key, so its verdicts are the specification's verdicts for those bytes
+				func() {
+					skb, _ := sk.MarshalBinary()
+					skb[64] ^= 1 // first byte of tr
+					sk2, err := sch.UnmarshalBinaryPrivateKey(skb)
+					if err != nil {
+						return
+					}
+					msg := []byte("foreign tr")
+					var sig, pkb []byte
+					var pk2 sign.PublicKey
+					oc := vlib.Safe(120*time.Second, func() {
+						sig = sch.Sign(sk2, msg, nil)
+						pk2 = sk2.Public().(sign.PublicKey)
+						pkb, _ = pk2.MarshalBinary()
+					})
+					if oc.Bad() || pk2 == nil {
+						return
+					}
+					f := p.Verify(pkb, msg, nil, sig)
+					l := line{Ev: "verify", Param: p.Name, Class: "public key object of a private key with a foreign tr", LenOK: f.LenOK, CtxOK: f.CtxOK, Hints: ints(f.Hints), HintOKRef: f.HintOK,
+						K: p.K, Omega: p.Omega, ZMax: int(f.ZMax), Gamma1: p.Gamma1, Beta: p.Beta, CTildeOK: f.CTildeOK, Msg: vlib.Hex(msg), Ctx: "", Sig: vlib.Hex(sig), Pk: vlib.Hex(pkb)}
+					if !f.LenOK || !f.CtxOK {
+						l.Hints = make([]int, p.Omega+p.K)
+					}
+					oc = vlib.Safe(120*time.Second, func() { l.Accepted = sch.Verify(pk2, msg, sig, nil) })
+					if oc.Bad() {
+						l.Panics, l.Note = 1, oc.Panic
+					}
+					emit(l)
+				}()
+			}
 			for ci, ctx := range ctxs {
 				for mi, ml := range []int{0, 1, 33, 200} {
 					if !*thorough && (si+ci+mi)%2 != 0 {
